@@ -46,7 +46,8 @@ type String struct {
 // is identical to String.ContainsExpression method except for taking a standard string value.
 func ContainsExpression(s string) bool {
 	i := strings.Index(s, "${{")
-	return i >= 0 && i < strings.Index(s, "}}")
+	// Find }} after ${{ since }} may appear before the first ${{
+	return i >= 0 && strings.Contains(s[i+3:], "}}")
 }
 
 // ContainsExpression returns whether the string contains at least one ${{ }} expression.
